@@ -191,6 +191,7 @@ func callSeq(c *Ctx, n ast.Node, names []string) []string {
 func init() {
 	reg(func(c *Ctx) {
 		const dir = "mcp"
+		publishChecks := false
 		hdr, ok := c.ConstString(dir, "sessionIDHeader")
 		if !ok {
 			c.Errf("sessions: sessionIDHeader not a string constant")
@@ -295,20 +296,6 @@ func init() {
 				get("statefulOtherMethod", 0, false)
 			}
 		}
-
-		keys := make([]string, 0, len(st))
-		for k := range st {
-			keys = append(keys, k)
-		}
-		sort.Strings(keys)
-		var b strings.Builder
-		b.WriteString("namespace Generated.Sessions\n")
-		fmt.Fprintf(&b, "/-- mcp/streamable_headers.go `sessionIDHeader` -/\ndef sessionIDHeader : String := %s\n", LeanStr(hdr))
-		for _, k := range keys {
-			fmt.Fprintf(&b, "/-- HTTP status written by the session layer of mcp/streamable.go (%s) -/\ndef %s : Nat := %d\n", k, k, st[k])
-		}
-		b.WriteString("end Generated.Sessions\n")
-		c.Lean["SessionsGen"] = b.String()
 
 		// --- structural fact: the transport/session is reached only through lookupSession's result
 		interesting := []string{"lookupSession", "startPOST", "endPOST", "ServeHTTP", "Close", "GetSessionID", "connectStreamable", "AfterFunc", "stopTimer"}
@@ -430,8 +417,7 @@ func init() {
 			}
 			pInit := pos(func(s ast.Stmt) bool { return mentions(c, s, "sessInfo.timer") })
 			pPub := pos(func(s ast.Stmt) bool {
-				as, ok := s.(*ast.AssignStmt)
-				return ok && c.Src(as.Lhs[0]) == "h.sessions[transport.SessionID]"
+				return strings.Contains(c.Src(s), "h.sessions[transport.SessionID] = sessInfo")
 			})
 			pStart := pos(func(s ast.Stmt) bool { return c.Src(s) == "sessInfo.startPOST()" })
 			pEnd := pos(func(s ast.Stmt) bool { return c.Src(s) == "defer sessInfo.endPOST()" })
@@ -446,6 +432,40 @@ func init() {
 				"cleanup_defer_before_endPOST": pClean != token.NoPos && pEnd != token.NoPos && pClean < pEnd, // LIFO: endPOST runs first
 				"startPOST_before_serve":       pStart != token.NoPos && pServe != token.NoPos && pStart < pEnd && pEnd < pServe,
 			})
+			// F20: the publication must not insert a session whose onClose has already run:
+			//   if session.calledOnClose.Load() { sessInfo.stopTimer() } else { h.sessions[id] = sessInfo }
+			checked := false
+			ast.Inspect(fd.Body, func(x ast.Node) bool {
+				is, ok := x.(*ast.IfStmt)
+				if !ok || c.Src(is.Cond) != "session.calledOnClose.Load()" {
+					return true
+				}
+				eb, ok := is.Else.(*ast.BlockStmt)
+				if ok && strings.Contains(c.Src(eb), "h.sessions[transport.SessionID] = sessInfo") &&
+					!strings.Contains(c.Src(is.Body), "h.sessions[") && strings.Contains(c.Src(is.Body), "sessInfo.stopTimer()") {
+					checked = true
+				}
+				return true
+			})
+			// ... and there is no other insertion into h.sessions in the whole handler
+			inserts := 0
+			for _, m := range c.Methods(dir, "StreamableHTTPHandler") {
+				if m.Body == nil {
+					continue
+				}
+				ast.Inspect(m.Body, func(x ast.Node) bool {
+					if as, ok := x.(*ast.AssignStmt); ok {
+						for _, l := range as.Lhs {
+							if ix, ok := l.(*ast.IndexExpr); ok && c.Src(ix.X) == "h.sessions" {
+								inserts++
+							}
+						}
+					}
+					return true
+				})
+			}
+			publishChecks = checked && inserts == 1
+			c.Fact("sessions.publish_checks_closed", map[string]any{"checked": checked, "insertions": inserts})
 			// onClose: stopTimer + delete under h.mu
 			var onClose *ast.FuncLit
 			ast.Inspect(fd.Body, func(x ast.Node) bool {
@@ -462,6 +482,21 @@ func init() {
 				c.Fact("sessions.onclose_calls", []string{"<missing>"})
 			}
 		}
+		keys := make([]string, 0, len(st))
+		for k := range st {
+			keys = append(keys, k)
+		}
+		sort.Strings(keys)
+		var b strings.Builder
+		b.WriteString("namespace Generated.Sessions\n")
+		fmt.Fprintf(&b, "/-- mcp/streamable_headers.go `sessionIDHeader` -/\ndef sessionIDHeader : String := %s\n", LeanStr(hdr))
+		for _, k := range keys {
+			fmt.Fprintf(&b, "/-- HTTP status written by the session layer of mcp/streamable.go (%s) -/\ndef %s : Nat := %d\n", k, k, st[k])
+		}
+		fmt.Fprintf(&b, "/-- F20: serveStatefulPOST publishes the new session only if its onClose has not run yet -/\ndef publishChecksClosed : Bool := %v\n", publishChecks)
+		b.WriteString("end Generated.Sessions\n")
+		c.Lean["SessionsGen"] = b.String()
+
 	})
 }
 
